@@ -51,5 +51,5 @@ def check(res):
     genprop.run(res, "C07", PROPFILE, corpus, classify=cl, extra=lambda gr, r: check_errors_is(res, gr, r))
 
 
-PROPFILE = None
+PROPFILE = "theories/Properties/C07.v"
 replay = genprop.replay
